@@ -425,18 +425,24 @@ def resolve(b: Body):
 
 
 class Sub:
-    def __init__(self, name, params, body: Body):
+    def __init__(self, name, params, body: Body, sig=None):
         self.name = name
         self.params = params  # [(kind, name, decl)]
         self.body = body
         self.term = resolve(body)
+        self.sig = sig  # {"ret": (signed, width)|None, "params": [(name, kind, signed, width)]}
+
+    def param_width(self, k):
+        if self.sig and k < len(self.sig["params"]) and self.sig["params"][k][1] == "pure":
+            return self.sig["params"][k][3]
+        return None
 
 
-def parse_subs(defs: dict) -> dict:
+def parse_subs(defs: dict, sigs: dict | None = None) -> dict:
     out = {}
     for n, text in defs.items():
         name, params, body = parse_subroutine_def(text)
-        out[name] = Sub(name, params, body)
+        out[name] = Sub(name, params, body, (sigs or {}).get(n))
     return out
 
 
@@ -886,8 +892,13 @@ class SortChecker:
                 self.prob("call_arity", f"{op} called with {len(t) - 1} arguments, defined with {len(sub.params)}")
                 return
             new_env = {}
-            for (kind, pn, _), a in zip(sub.params, t[1:]):
+            for k, ((kind, pn, _), a) in enumerate(zip(sub.params, t[1:])):
                 new_env[pn] = (a, penv)
+                pw = sub.param_width(k)
+                if kind == "pure" and pw is not None:
+                    s = self.pure(a, penv, ())
+                    if s is not None and s != (BV, pw):
+                        self.prob("call_arg_width", f"{op}: argument {k} ({pn}) has sort {s}, parameter is {pw} bits")
             self.effect(sub.term, new_env, stack + (name,))
             return
         if op in PURE_OPS or op == "id":
